@@ -83,7 +83,8 @@ static void round_trip(int capmode)
         if (!service_with_event(1)) { inconclusive("no quiescence"); return; }
         if (!got_data || ncodes != 1 || last_ok != 1 || strncmp(data_unit, "+RT=", 4) != 0) {
                 if (capmode == 0) viol("C07", "read-refused", "AT+RT? with generous capacity was not answered with a data line and OK");
-                else CNT("read_did_not_fit");          /* reference length and real length may differ only if the formatter changed: C19/C06 territory */
+                else if (tl > 0 && W.capA >= (size_t)tl + 1) viol("C07", "read-refused", "AT+RT? was not answered although the text of %d bytes fits the command capacity of %zu: nothing to feed back", tl, W.capA);
+                else CNT("read_did_not_fit");
                 return;
         }
         arglen = data_len - 4; memcpy(argtext, data_unit + 4, arglen);
